@@ -51,6 +51,12 @@ def configs_for(prop, tier):
         Q(A, [p1, p2], force_merge=True)
         Q(C, [(1, 'feature/a', 'development/5.1'), (2, 'bugfix/b', 'development/5')])
         Q(E, [(1, 'bugfix/s', 'stabilization/4.3.18'), (2, 'bugfix/b', 'development/4.3')])
+    # the complete pull-request handler, from an arbitrary repository
+    for mode in (('queue', 'skip') if prop == 'C03' else ('queue', 'noqueue', 'skip')):
+        cfg.append(dict(sc='H', shape=F, prs=[p1], opts=dict(mode=mode, no_octopus=True)))
+    if tier == 'thorough':
+        cfg.append(dict(sc='H', shape=F, prs=[p1], opts=dict(mode='queue', no_octopus=False)))
+        cfg.append(dict(sc='H', shape=A, prs=[p1], opts=dict(mode='noqueue', no_octopus=True)))
     if prop == 'C03':
         # direct merges only happen in skip_queue_when_not_needed mode, after
         # the in-sync / build / is_needed checks
@@ -107,6 +113,8 @@ def natoms_for(c):
     shape, prs = c['shape'], [PR(*p) for p in c['prs']]
     if c['sc'] == 'Q':
         n = len(GF.queue_refs(shape, prs))
+    elif c['sc'] == 'H':
+        n = len(GF.handler_refs(shape, prs[0], c['opts']['mode']))
     elif c['sc'] in ('S', 'AQ'):
         n = len(GF.skip_queue_refs(shape, prs[0]))
     else:
@@ -120,7 +128,8 @@ def monitors_for(prop, c, ctx_flags):
     if prop == 'C01':
         return [GF.mon_inclusion(shape)]
     if prop == 'C02':
-        return [GF.mon_all_or_none(shape, prs, c['sc']), GF.mon_inclusion(shape)]
+        return [GF.mon_all_or_none(shape, prs, 'D' if c['sc'] == 'H' else c['sc']),
+                GF.mon_inclusion(shape)]
     if prop == 'C03':
         byp = z3.BoolVal(bool(c['opts'].get('force_merge')))
         return [GF.mon_status(shape, byp)]
@@ -135,7 +144,7 @@ def pre_for(prop, c):
 
     def pre(ctx, repo):
         if prop == 'C02':
-            GF.assume_all_or_none(ctx, repo, shape, prs, c['sc'])
+            GF.assume_all_or_none(ctx, repo, shape, prs, 'D' if c['sc'] == 'H' else c['sc'])
     return pre
 
 
@@ -160,6 +169,15 @@ def make_harness_factory(prop, tier, seed, sample_mod):
                 scen = 'merge_queues'
                 if hook:
                     extra['third_party'] = hook.state['log']
+            elif c['sc'] == 'H':
+                def mons_of(byp, host):
+                    if prop == 'C03':
+                        return [GF.mon_status(shape, byp)]
+                    return mons
+                repo, host, out = GF.scenario_handle_pr(
+                    ctx, shape, prs[0], nat, c['opts']['mode'], mons_of,
+                    no_octopus=c['opts'].get('no_octopus', False), pre=pre_for(prop, c))
+                scen = 'handle_pr'
             elif c['sc'] == 'AQ':
                 repo, host, out1, out = GF.scenario_queue_then_merge(
                     ctx, shape, prs[0], nat, no_octopus=c['opts'].get('no_octopus', True),
@@ -191,7 +209,7 @@ def make_harness_factory(prop, tier, seed, sample_mod):
                     d['third_party'] = [
                         [k, r, w, None if a is None else model_value(v.model, a)]
                         for (k, r, w, a) in d['third_party']]
-                if scen == 'skip_queue':
+                if scen in ('skip_queue', 'handle_pr'):
                     d['params']['bypass'] = bool(model_value(v.model, z3.Bool('bypass_build_status')))
                 vio.append(d)
             moved = [d for d in shape if d in repo.remote and
@@ -201,7 +219,7 @@ def make_harness_factory(prop, tier, seed, sample_mod):
             # differential sample: witness model -> expected final relation
             key = hashlib.sha1(repr(ctx.trace).encode()).digest()[0]
             if (not vio and repo.conflicts_taken == 0 and repo.differs_taken == 0
-                    and scen not in ('skip_queue', 'queue_then_merge') and not extra
+                    and scen not in ('skip_queue', 'queue_then_merge', 'handle_pr') and not extra
                     and (key + seed) % sample_mod == 0):
                 r, m = ctx.sat_model(repo.replay_prefs())
                 if r == 'sat':
@@ -278,8 +296,10 @@ def signature(prop, data):
 
 
 def run(rep, prop, extra_configs=None, sample_mod=None):
-    rep.stubs += common.install_common_stubs()
+    rep.stubs += common.install_common_stubs(common.named_render)
     rep.stubs += GF.silence_all()
+    import bert_e.workflow.gitwaterflow as gwf
+    gwf.setup({})
     rep.stubs += ['git binary -> symgit.SymRepo.cmd (closure-set model of every git '
                   'command the code emits; unknown command = inconclusive)',
                   'git host -> statuses are an uninterpreted function of the commit; '
@@ -297,6 +317,10 @@ def run(rep, prop, extra_configs=None, sample_mod=None):
         '_horizontal_validation/_vertical_validation/_process/_recursive_lookup/'
         '_extract_pr_ids/_remove_unmergeable/failed_prs',
         'integration.merge_integration_branches', 'integration.get_integration_branches',
+        'gitwaterflow.handle_pull_request/_handle_pull_request (complete handler, queue / no-queue / '
+        'skip-queue modes): early_checks, handle_comments, clone, cascade build+validate, '
+        'create/update_integration_branches, check_conflict, check_in_sync, pushes, check_approvals, '
+        'check_build_status, is_needed, add_to_queue / merge_integration_branches',
         'git_utils.robust_merge/octopus_merge/consecutive_merge/push',
         'lib.git.Branch.merge/create/remove/reset/checkout/includes_commit/'
         'get_latest_commit/differs/exists', 'lib.git.Repository.push/push_all/checkout',
@@ -333,6 +357,8 @@ def run(rep, prop, extra_configs=None, sample_mod=None):
         if c['sc'] == 'Q' and c['prs'] and not any(r['out'] == 'Merged' and r['moved']
                                                    for _, r in results):
             rep.error('vacuity: no merging path in config %s' % name)
+        if c['sc'] == 'H' and not any(r['out'] in ('Queued', 'SuccessMessage') for _, r in results):
+            rep.error('vacuity: whole handler never queued / merged in config %s' % name)
         if c['sc'] == 'AQ' and not any(r['out'] == 'queued/Merged' for _, r in results):
             rep.error('vacuity: config %s never queued and merged' % name)
         if c['sc'] in 'DS' and not any(r['out'] == 'merged' for _, r in results):
@@ -382,5 +408,7 @@ def run(rep, prop, extra_configs=None, sample_mod=None):
 
 
 def replay(data):
+    if data.get('scenario') == 'handle_pr':
+        common.install_common_stubs(common.named_render)
     bad, out = GF.replay_on_real_git(data)
     return data['label'] in bad
